@@ -19,8 +19,9 @@
    A COLUMN (the value of a Series-valued expression over a table) is
        [name |-> STRING, kind |-> "i"|"f"|"b", vals |-> <<cells>>, err |-> BOOLEAN]
    vals is parallel to the rows of the table it was evaluated on.  name "#"
-   marks a broadcast scalar, "" an unnamed Series.  err = the reference (pandas)
-   raises for this expression: nothing is demanded of the implementation then.
+   marks a nameless operand (a broadcast scalar, a bare array), "" an unnamed
+   Series.  err = the reference (pandas) raises for this expression: nothing is
+   demanded of the implementation then.
 
    Pure definitions only; meant to be EXTENDed.                                *)
 EXTENDS Frames
